@@ -19,6 +19,13 @@ PROPS = {
                   {"checks": 300, "steps": 60, "shards": 14, "timeout": 5000, "shrinktime": "120s"}),
         ],
     },
+    "C06": {
+        "level": "fault_enumeration",
+        "jobs": [
+            rapid("crash", "^TestC06$", {"checks": 6, "shards": 12, "timeout": 900, "shrinktime": "30s"},
+                  {"checks": 10, "shards": 14, "timeout": 7000, "shrinktime": "120s"}),
+        ],
+    },
     "C18": {
         "level": "fault_enumeration",
         "jobs": [
